@@ -854,8 +854,9 @@ impl Model {
                 for d in ["env", "env.build", "env.launch"] {
                     self.snap.remove_tree(&join(&l, d.as_bytes()));
                 }
+                let own = self.abs(&l);
                 for f in files {
-                    self.put_file(&l, f);
+                    self.put_file(&l, &super::ops::with_layer_path(f, &own));
                 }
                 for k in links {
                     self.snap.insert(join(&l, &k.path), Node::Symlink { target: k.target.clone() });
